@@ -8,6 +8,7 @@ import (
 	"errors"
 	"fmt"
 	"sort"
+	"sync"
 
 	"github.com/NethermindEth/juno/blockchain"
 	"github.com/NethermindEth/juno/blockchain/networks"
@@ -66,6 +67,7 @@ func (n *Node) Store(b *gen.Block) error {
 
 // Ids is the finite universe of identifiers an observation ranges over.
 type Ids struct {
+	MinNumber   uint64 // number sweeps cover [MinNumber, MaxNumber]
 	MaxNumber   uint64
 	BlockHashes []felt.Felt
 	TxHashes    []felt.Felt
@@ -194,7 +196,7 @@ func (n *Node) Observe(ids *Ids) Obs {
 	o["headsheader"] = render(hh, err)
 	l1, err := bc.L1Head()
 	o["l1head"] = render(l1, err)
-	for i := uint64(0); i <= ids.MaxNumber; i++ {
+	for i := ids.MinNumber; i <= ids.MaxNumber; i++ {
 		p := fmt.Sprintf("n%d/", i)
 		b, err := bc.BlockByNumber(i)
 		o[p+"block"] = render(b, err)
@@ -344,4 +346,45 @@ func (n *Node) ObserveEvents(o Obs, ids *Ids) {
 		evs, err := n.Events([]felt.Address{felt.Address(a)}, nil, 1000)
 		o["events/from/"+a.String()] = render(evs, err)
 	}
+}
+
+// Base is a chain of n real empty blocks stored once per process on both state backends; cases clone the
+// database (memory Copy) so that generated suffixes cross the real 8192-block event-index window.
+type Base struct {
+	N     int
+	Chain *gen.Chain
+	dbs   map[bool]*memory.Database
+	once  sync.Once
+}
+
+var bases sync.Map
+
+// GetBase returns the shared base chain of n blocks and a private copy of its database.
+func GetBase(n int, newState bool, net *networks.Network) (*gen.Chain, *memory.Database) {
+	v, _ := bases.LoadOrStore(n, &Base{N: n})
+	b := v.(*Base)
+	b.once.Do(func() {
+		u := &gen.Universe{Net: net}
+		b.Chain = gen.NewChain(u, gen.Opts{})
+		b.dbs = map[bool]*memory.Database{}
+		for i := 0; i < b.N; i++ {
+			b.Chain.AppendEmpty("0.13.2")
+		}
+		for _, ns := range []bool{false, true} {
+			d := memory.New()
+			nd := New(ns, d, net)
+			for _, blk := range b.Chain.Blocks {
+				if err := nd.Store(blk); err != nil {
+					panic(fmt.Sprintf("base chain store %d: %v", blk.Num(), err))
+				}
+			}
+			if b.N > 0 {
+				if err := nd.BC.WriteRunningEventFilter(); err != nil {
+					panic(err)
+				}
+			}
+			b.dbs[ns] = d
+		}
+	})
+	return b.Chain, b.dbs[newState].Copy()
 }
